@@ -16,6 +16,10 @@ re-typed here):
                        `Generic_Spec.subclass_names`, `issubclass(Dtio_Generic_Spec, Generic_Spec)`
                        (the `else: raise InternalError` branch of Use_Stmt.match is reachable
                        iff this is False while Dtio_Generic_Spec is an alternative)
+  onlyLoopBranches     the `if / elif / else` chain inside `for child in result[4].children:` of
+                       Use_Stmt.match: per branch the classes of its `isinstance(child, …)` test
+                       (joined by `|`, `else` for the final branch) and what it does
+                       (`append` / `pass` / `raise`)
   primaryAlternatives  `Primary.subclass_names` (Intrinsic_Function_Reference is tried first;
                        Designator / Structure_Constructor / Function_Reference take over)
   loopEscapes          per glue function: number of `break` / `continue` / `return` statements
@@ -127,6 +131,50 @@ def loop_escapes():
     return out
 
 
+def only_loop_branches():
+    """the branches of the loop over the children of the Only_List in Use_Stmt.match"""
+    fn = _func_ast("Fortran2003", "Use_Stmt", "match")
+    loops = [x for x in ast.walk(fn) if isinstance(x, ast.For)
+             and isinstance(x.target, ast.Name) and x.target.id == "child"]
+    if len(loops) != 1 or len(loops[0].body) != 1 or not isinstance(loops[0].body[0], ast.If):
+        return [("?", "unrecognised loop shape")]
+
+    def action(body):
+        if len(body) == 1 and isinstance(body[0], ast.Pass):
+            return "pass"
+        nodes = [n for b in body for n in ast.walk(b)]
+        if any(isinstance(n, ast.Raise) for n in nodes):
+            return "raise"
+        if any(isinstance(n, (ast.Break, ast.Continue, ast.Return)) for n in nodes):
+            return "escape"
+        if any(isinstance(n, ast.Call) and isinstance(n.func, ast.Attribute) and n.func.attr == "append"
+               for n in nodes):
+            return "append"
+        return "other"
+
+    def classes(test):
+        if isinstance(test, ast.Call) and isinstance(test.func, ast.Name) and test.func.id == "isinstance" \
+                and len(test.args) == 2 and isinstance(test.args[0], ast.Name) and test.args[0].id == "child":
+            c = test.args[1]
+            if isinstance(c, ast.Name):
+                return c.id
+            if isinstance(c, ast.Tuple) and all(isinstance(e, ast.Name) for e in c.elts):
+                return "|".join(e.id for e in c.elts)
+        return "?" + ast.unparse(test)
+
+    out = []
+    node = loops[0].body[0]
+    while True:
+        out.append((classes(node.test), action(node.body)))
+        if len(node.orelse) == 1 and isinstance(node.orelse[0], ast.If):
+            node = node.orelse[0]
+            continue
+        if node.orelse:
+            out.append(("else", action(node.orelse)))
+        break
+    return out
+
+
 def main_program_table_name():
     fn = _func_ast("Fortran2003", "Main_Program0", "match")
     for node in ast.walk(fn):
@@ -165,6 +213,7 @@ def facts():
         "onlyAlternatives": list(F.Only.subclass_names),
         "genericSpecAlternatives": list(F.Generic_Spec.subclass_names),
         "dtioIsGenericSpec": issubclass(F.Dtio_Generic_Spec, F.Generic_Spec),
+        "onlyLoopBranches": only_loop_branches(),
         "primaryAlternatives": list(F.Primary.subclass_names),
         "loopEscapes": loop_escapes(),
         "mainProgramTableName": main_program_table_name(),
@@ -202,6 +251,9 @@ def render():
     L.append("def genericSpecAlternatives : List String := " + _slist(f["genericSpecAlternatives"]))
     L.append("/-- `issubclass(Dtio_Generic_Spec, Generic_Spec)` -/")
     L.append("def dtioIsGenericSpec : Bool := " + ("true" if f["dtioIsGenericSpec"] else "false"))
+    L.append("/-- branches of the only-list loop of `Use_Stmt.match`: (classes tested, action) -/")
+    L.append("def onlyLoopBranches : List (String × String) := ["
+             + ", ".join("(%s, %s)" % (_s(a), _s(b)) for a, b in f["onlyLoopBranches"]) + "]")
     L.append("/-- `Primary.subclass_names` -/")
     L.append("def primaryAlternatives : List String := " + _slist(f["primaryAlternatives"]))
     L.append("")
